@@ -60,6 +60,8 @@ Definition Inv (clk : Z) (c : coll) : Prop := store_nd (docs c) /\ now c = clk.
 
 Lemma Inv_with_docs clk c l : Inv clk c -> store_nd l -> Inv clk (with_docs c l).
 Proof. intros [_ H] Hl. split; [ exact Hl | exact H ]. Qed.
+Lemma Inv_with_docs_w clk c l : Inv clk c -> store_nd l -> Inv clk (with_docs_w c l).
+Proof. intros [_ H] Hl. split; [ exact Hl | exact H ]. Qed.
 
 Lemma store_get_none k l :
   store_get k l = None -> Forall (fun kd => py_eq (fst kd) k = false) l.
@@ -219,9 +221,9 @@ Proof.
   assert (H1 : Inv clk c1) by eauto using expire_nd.
   destruct (store_get id (docs c1)) eqn:Eg; [ inv_pair H; assumption | ].
   set (data := patch (VDoc fs1)) in H.
-  set (c2 := with_docs c1 (docs c1 ++ [(id, data)])) in H.
+  set (c2 := with_docs_w c1 (docs c1 ++ [(id, data)])) in H.
   assert (H2 : Inv clk c2).
-  { apply Inv_with_docs; [ exact H1 | ].
+  { apply Inv_with_docs_w; [ exact H1 | ].
     apply store_nd_app_end; [ exact (proj1 H1) | apply store_get_none; exact Eg ]. }
   destruct (ensure_uniques c2 data) as [touched|e] eqn:Eu.
   - destruct (expire_if touched c2) as [c3|e] eqn:E3; inv_pair H; eauto using expire_if_nd.
@@ -272,8 +274,8 @@ Proof.
       [ inv_pair H; assumption | ].
     destruct (match d with VDoc fs => assoc "_id" fs | _ => None end);
       [ | inv_pair H; assumption ].
-    set (c1 := with_docs c (store_set k d' (docs c))) in H.
-    assert (H1 : Inv clk c1) by (apply Inv_with_docs; [ exact Hi | apply store_nd_set; exact (proj1 Hi) ]).
+    set (c1 := with_docs_w c (store_set k d' (docs c))) in H.
+    assert (H1 : Inv clk c1) by (apply Inv_with_docs_w; [ exact Hi | apply store_nd_set; exact (proj1 Hi) ]).
     destruct (ensure_uniques c1 d') as [touched|e] eqn:Eu.
     + destruct (expire_if touched c1) as [c2|e] eqn:E2; [ | inv_pair H; assumption ].
       assert (H2 : Inv clk c2) by eauto using expire_if_nd.
